@@ -311,7 +311,10 @@ def run_case(ctx, case) -> None:
 
     try:
         if 'tap' not in state:
-            raise HarnessError('C03 set-up did not finish')
+            # the set-up itself is a sequence of HCI commands on the real host and controller
+            fail(f'setup/{outcome}', f'the harness set-up commands (reset, set address, connect) did not complete: {outcome}')
+            ctx.case(('setup', case['situation']), False, {'setup_failed'})
+            return
         analyse(ctx, case, program, ncallers, state, results, outcome, loop, fail)
     finally:
         loop.shutdown()
@@ -395,6 +398,10 @@ def analyse(ctx, case, program, ncallers, state, results, outcome, loop, fail):
             r = results[i]
             if r is None:
                 fail('caller_pending', f'caller of {cmd_name(op)} still waiting at quiescence ({outcome})')
+                ok = False
+                break
+            if r[0] == 'exc':
+                fail(f'caller_exception/{r[1]}', f'caller of {cmd_name(op)} got {r[1]}({r[2]}) instead of the response to its command')
                 ok = False
                 break
             if r[0] == 'ok' and r[1] != op:
